@@ -5,7 +5,7 @@
   buffer and in transactions satisfy the same permissions (`WF`), so that flushing / resending
   them later is covered too.
 -/
-import Bisquitt.Model.Gateway
+import Bisquitt.Lemmas.GwRegId
 
 namespace Bisquitt.Gw
 open Bisquitt Gw
@@ -65,6 +65,11 @@ theorem Emits.then_eq {a b c : Gw} (h1 : Emits Sn Mq E a b) (h : c.outs = b.outs
     split
     · rfl
     · split <;> rfl
+
+@[simp] theorem registrationTopicId_outs (g : Gw) (topic : Bytes) : (g.registrationTopicId topic).2.outs = g.outs := by
+  rcases registrationTopicId_proj g topic with h | h | ⟨id, h⟩ <;> rw [h]
+  · exact newTopicId_outs g
+  · exact newTopicId_outs g
 
 /-! ### the two senders -/
 theorem snSend_emits (g : Gw) (p : Pkt) (tx : Option Nat) (h : Sn p) : Emits Sn Mq E g (g.snSend p tx) := by
